@@ -180,11 +180,16 @@ def fault_points(p, dates, rng, tier):
 
 
 KEY_WANY = "waitany-after-failed-simcall-segv"
+KEY_ZOMBIE = "host-off-marks-peer-dying-without-exit"
 
 
 def classify(verdict, impl, query=""):
     if "aborts" in verdict and "CommImpl::start" in verdict:
         return KEY_ASSERT
+    if "[zombie:" in verdict:
+        # an actor of the failed host was marked dying by unregister_first_simcall during the kill of a co-hosted peer;
+        # HostImpl::turn_off then skipped it: it never terminates (the model predicts exactly that)
+        return KEY_ZOMBIE
     if "CRASH 11" in impl:
         # SIGSEGV while an actor enters wait_any right after one of its simcalls ended with an exception
         # (Simcall.cpp leaves simcall_.observer_ dangling; ActivityWaitanySimcall's constructor dereferences it)
